@@ -155,7 +155,7 @@ def run_ops(h, ops, V, stats, inputs, snap, xrng, scribble_ok=False):
                 # (only done by a sampler that owns a private copy of the inputs, i.e. not inside a shared group)
                 if scribble_ok:
                     st_arr = h.inputs["start"]
-                    st_arr += 1000.0 + np.arange(st_arr.size, dtype=float).reshape(st_arr.shape)
+                    st_arr += (1000 + np.arange(st_arr.size)).reshape(st_arr.shape).astype(st_arr.dtype)
                     snap.update(lc.snapshot_inputs(inputs))
                     stats["fault_caller_overwrites_start_array"] += 1
             elif name == "inspect":
